@@ -1,11 +1,11 @@
-\* C03 (thorough: all method lists, integrity-only REQUIRED, pairs of deviations)
+\* C03 (thorough: eight method lists (all orders of all subsets of {C,P}, four lists with a third method), integrity-only REQUIRED, pairs of deviations)
 SPECIFICATION Spec
 CONSTANTS
   Roles = {"client","server"}
   AuthLevels = {"REQUIRED","PREFERRED","OPTIONAL","NEVER"}
   EncLevels = {"REQUIRED","PREFERRED","OPTIONAL","NEVER"}
   IntegChoices = {"SAME","REQUIRED"}
-  MethodLists <- ListsAll
+  MethodLists <- ListsEight
   AllMethods = {"C","P","K"}
   Runnable = {"C"}
   PeerLevels = {"OPTIONAL","REQUIRED"}
